@@ -7,7 +7,7 @@ PROPS = {
                    "proved in Coq on a hand-written model of lruSessionCache; the model and the specification are evaluated inside Coq on "
                    "operation sequences executed by both Go caches (results of every Get, aliasing / live-session damage counters); concurrent use: small histories of three goroutines "
                    "with start/end stamps from one atomic counter are checked for a linearization against the model and against the abstract LRU by search in Coq, and stress runs for the "
-                   "necessary condition that every hit is an intact session stored under that key.",
+                   "necessary condition that every hit is an intact session stored under that key. Also: stored values without a master secret, and honest connections through caches of every capacity reconfigured in between.",
         level_note="Trusted: Coq kernel + vm_compute; the model is hand-written and tied to the code only by the correspondence "
                    "(generator quality bounds it); mutex atomicity is assumed for the sequential model.",
         code_names={1: "lookup-differs-from-LRU-spec", 2: "live-session-altered", 3: "concurrent-history-has-no-sequential-explanation", 4: "concurrent-lookup-returned-foreign-or-damaged-session"},
@@ -25,7 +25,7 @@ PROPS["C16"] = dict(
                "replayWindow.check); connection level: only the genuine record that arrived is delivered, each payload at most once, whatever is not genuine is inert (removing it changes neither "
                "the window nor anything delivered), first arrivals inside the window are delivered.  The window model is evaluated in Coq on decision sequences of the Go window; the connection "
                "model on what the application of a real connection (both cipher modes, window sizes 0/32/48/64/100/160, Read and ReadFrom) got after every arrival of a scripted history."
-               " Also: forged current-epoch records with bodies of 0..15 bytes, the window size set per client by GetConfigForClient, the rest of a record across ReadFrom calls.",
+               " Also: forged current-epoch records with bodies of 0..15 bytes, the window size set per client by GetConfigForClient, the rest of a record across ReadFrom calls. A forged record in front of the genuine one in one datagram (finding F34, fixed), records above the receiver's own path MTU.",
     level_note="Trusted: Coq kernel + vm_compute; hand-written models tied by correspondence; that a datagram which is not byte-identical to a genuine record fails authentication (INT-CTXT of SM4-GCM / "
                "HMAC-SM3+CBC) is the assumption behind the `Bogus` item of the connection model; the harness classifies what it delivers (genuine copy / anything else). F7 and F14 fixed.",
     code_names={1: "sequence-number-accepted-twice", 2: "in-window-first-arrival-refused", 3: "delivered-something-that-is-not-the-genuine-record-that-arrived",
@@ -40,7 +40,7 @@ PROPS["C17"] = dict(
     level_text="Theorems for every fragment set / order / overlap / duplication and every payload limit (complete iff covered, assembled = message, "
                "transcript form, overflow rejected, bounded pending state) proved in Coq; the model and an independent reference reassembler are "
                "evaluated in Coq on what the Go buffer, readHandshake, writeHandshakeRecord did; full handshakes are run with independent PMTU values."
-               " Also: the rest of a message arriving after a wall-clock gap (the library ages incomplete buffers by the wall clock).",
+               " Also: the rest of a message arriving after a wall-clock gap (the library ages incomplete buffers by the wall clock). Messages covered by overlapping windows in every order.",
     level_note="Trusted: Coq kernel + vm_compute; hand-written model tied by correspondence; time-based stale-buffer cleanup and the record layer "
                "beneath readHandshake are not in this model (C15/C09 cover the record layer).",
     code_names={1: "complete-disagrees-with-coverage", 2: "assembled-differs-from-message", 3: "fragment-range-check-wrong",
@@ -56,7 +56,7 @@ PROPS["C20"] = dict(
                "reordered, short stream is an error, progress) proved in Coq; the model and a stream-level predicate are evaluated in Coq on what "
                "pa.NewListener / ProtocolDetectConn did for all 256 version bytes, segmentations, early disconnects and configurations (first Read with a non-empty or an empty buffer); real TLCP and TLS "
                "handshakes are run through the adapter and directly, also forced by a zero-length Read."
-               " Also: a zero-length or concurrent first Read / Write, a server that writes first, the caller's deadline expiring inside the first bytes (finding F33, fixed), Close while the first Read is pending, first records of other content types, a TLS configuration by callback.",
+               " Also: a zero-length or concurrent first Read / Write, a server that writes first, the caller's deadline expiring inside the first bytes (finding F33, fixed), Close while the first Read is pending, first records of other content types, a TLS configuration by callback. Another connection served between a deadline expiry inside the first bytes and the retry; the routing constants are proved equal to the adapter's switch as read from the sources.",
     level_note="Trusted: Coq kernel + vm_compute; hand-written model tied by correspondence; crypto/tls and tlcp.Server behind the adapter are exercised, not modelled; "
                "the mutex in ProtocolSwitchServerConn belongs to C13.",
     code_names={1: "short-stream-not-an-error", 2: "error-on-complete-header", 3: "bytes-lost-or-altered", 4: "unexpected-read-error",
@@ -102,7 +102,7 @@ PROPS["C06"] = dict(
                "ramp closed form) proved in Coq; the model must predict the exact sequence of record lengths on the wire (ramp, 128 KiB boost, both cipher modes) "
                "and of Read results of real TLCP connections; a property-level predicate (exact delivery, full write lengths, EOF after all data, size limits) is "
                "evaluated on the implementation's output. Transports that hand over the last bytes together with io.EOF, and the request / CloseWrite / read-the-answer pattern on a "
-               "transport that honours deadlines, are part of the corpus and of the random stream.",
+               "transport that honours deadlines, are part of the corpus and of the random stream. Also: data written at once by the side that sends the last Finished, handed over together with it.",
     level_note="Trusted: Coq kernel + vm_compute; hand-written model tied by correspondence; record protection is abstract here (C04 checks it against the standard, C05 its failure behaviour).",
     code_names={1: "stream-not-delivered-exactly", 2: "write-did-not-report-full-length", 3: "no-clean-eof-after-close", 4: "ciphertext-above-16384+2048",
                 5: "plaintext-above-16384", 6: "bytes-lost-or-duplicated", "hang": "hang"},
@@ -115,7 +115,7 @@ PROPS["C02"] = dict(
     level_text="Theorems (completion implies two parsed certificates, both chains when verification is on, a present and valid key-exchange signature over this handshake's "
                "randoms and parameters, a correct Finished; still the two proofs of possession with verification off; re-validation on resumption) proved in Coq; every impostor "
                "of the catalogue x 4 suites x verification on/off x both stacks is played against the real client and the model's verdict, computed from independently "
-               "obtained oracle answers, must equal the client's.",
+               "obtained oracle answers, must equal the client's. Also: a peer that echoes the session identifier without knowing the master secret, against the library's cache and a user-supplied one that keeps the object it is handed; Clone carries every field the decision depends on.",
     level_note="Trusted: Coq kernel + vm_compute; X.509 chain building / host-name matching and SM2 verification are oracles (smx509, sm2 called by the harness with the options "
                "the property prescribes); the puppet peer (harness/internal/puppet) and its own PRF / record protection; unforgeability of SM2 signatures and of the Finished PRF is "
                "what turns 'the check was evaluated and true' into 'the peer holds the keys'.",
@@ -316,7 +316,7 @@ PROPS["C19"] = dict(
                "ends with both endpoints complete, ping and pong delivered, within one retransmission timeout of the schedule per fault plus the injected delays; for every script of any length and any "
                "number of steps: no application data before completion, completion only after the peer's Finished was handed over, timeouts only take schedule values.  The model is tied to the code by "
                "exact equality of full event traces on every fault-free run, every single fault on the first six datagrams of either side (both tie orders), sampled (thorough: all) double and sampled triple faults."
-               " Flights spanning several datagrams (path MTU 500) are outside the model and judged on the outcome only (finding K16).",
+               " Flights spanning several datagrams (path MTU 500) are outside the model and judged on the outcome only (finding K16). Also: Clone carries the retransmission settings.",
     level_note="Trusted: Coq kernel + vm_compute; the hand-written model (tied by trace equality: any change in what is sent when, in record numbering, in timer handling shows up as a mismatch); "
                "harness/internal/tk/vnet.go, whose scheduling discipline (zero latency, one datagram per step, time advances only at quiescence, serialised simultaneous expiries) the model mirrors: the "
                "theorems are about runs under that discipline; real networks with latency comparable to the timeouts are outside.  Agreement of negotiated parameters is checked on the implementation's "
@@ -382,7 +382,7 @@ PROPS["C13"] = dict(
                "that shape the peer stream is a concatenation of whole payloads each exactly once in every interleaving (C13_writes_whole); all Handshake callers observe the "
                "latched result and the handshake function runs at most once (C13_handshake_same_result); the datagram Close touches no mutable state before its wait and no "
                "call is inside afterwards (C13_close_waits, C13_close_interlock). Observed on the real library under the race detector with GOMAXPROCS 1..16, seeds and injected "
-               "yields: streams, Handshake results, stuck goroutines, interlock word, race reports - all judged by the Coq predicate.",
+               "yields: streams, Handshake results, stuck goroutines, interlock word, race reports - all judged by the Coq predicate. Also (obligations on the regenerated skeleton): the deadline setters take no mutex; the adapter's wrapped I/O runs outside its detection lock.",
     level_note="A call inside a for / range statement is unrolled twice in the trace (LoopCall), so that a critical section taken per iteration is seen as several sections by the whole-write check. F16, F17 and F28 (the three fields that failed the lockset discipline) are fixed in the library: the finding list of the lockset theorem is empty. NOT modelled / not proved: the Go memory model (that atomics and mutexes give the happens-before edges the handshake-phase exemption relies on), the scheduler "
                "(fairness, the busy-wait in dtlcp Close terminating), net / crypto / gmsm internals (their race freedom rests on the detector runs only), context cancellation "
                "in HandshakeContext. Trusted: the translator (that it reports every lock operation, atomic operation and field access of the listed files; linearisation of "
